@@ -342,6 +342,8 @@ fn prefixes() -> Vec<(String, TowerCfg, Vec<Ev>, Faulty)> {
             vec![Ev::Register(1), add(1, 2, Blob::Valid), Ev::MineP(MineSel::Txs(vec![TxName::D(1)]))],
             Faulty::Add { user: 1, disp: 1, blob: Blob::Bad },
         ),
+        // nothing to do at all: the outage is only seen by the polls, and the node comes back without a new block
+        ("idle-tower".into(), cfg, vec![Ev::Register(1), add(1, 2, Blob::Valid), Ev::MineP(MineSel::Empty)], Faulty::Poll),
         (
             "multi-block-catch-up".into(),
             cfg,
